@@ -193,6 +193,26 @@ def run():
                 d["n"] += 1
                 d["cls"].add("IterativeTighteningSearch")
     chk.extra["search_histories"] = n_search
+    # the lazily expanding compound edit (EditCollection) over scripted sub-edits following the same schedules:
+    # its own interval must obey the protocol whatever its children do (L2 model: spec/Collection.tla, checked in C05)
+    from props import _coll
+    n_coll = 0
+    for ch in scheds:
+        if len(ch) > 4:
+            continue
+        base = sum(c[0][1] for c in ch)
+        for slack, first in ((0, False), (1, True)):
+            sub = _coll.bounded_trace(ch, base + slack, first)
+            n_coll += 1
+            key = json.dumps(sub, sort_keys=True)
+            d = distinct.get(key)
+            if d is None:
+                distinct[key] = {"sub": sub, "cls": {"EditSequence"}, "n": 1,
+                                 "case": ("collection", ch, base + slack, first), "active": True}
+            else:
+                d["n"] += 1
+                d["cls"].add("EditSequence")
+    chk.extra["scripted_collection_histories"] = n_coll
     items = list(distinct.values())
     total_objects = sum(d["n"] for d in items)
     chk.extra["objects_observed"] = total_objects
@@ -263,6 +283,10 @@ def replay(path):
     if rp["case"][0] == "search":
         corpus._quiet_env()
         res = {"subs": [("IterativeTighteningSearch", search_history(rp["case"][1], rp["case"][2]))]}
+    elif rp["case"][0] == "collection":
+        corpus._quiet_env()
+        from props import _coll
+        res = {"subs": [("EditSequence", _coll.bounded_trace(rp["case"][1], rp["case"][2], rp["case"][3]))]}
     else:
         res = _one((tuple(rp["case"]), 4, rp["active"]))
     traces = [s for _, s in res["subs"]]
